@@ -9,6 +9,7 @@ CONSTANTS
   ServerRun = TRUE
   CasLoserErrors = TRUE
   ExitCheckAfterHandler = TRUE
+  CountAtAccept = TRUE
 SYMMETRY Sym
 SPECIFICATION Spec
-INVARIANTS TypeOK ActiveCount ObligationsHold SecondShutdownErrors NotRunningErrors NoAcceptAfterClose HooksAwaited InFlightAwaited CloseAnnounced InFlightCompleted EndOK
+INVARIANTS TypeOK ActiveCount ObligationsHold SecondShutdownErrors NotRunningErrors NoAcceptAfterClose HooksAwaited InFlightAwaited AcceptedAwaited CloseAnnounced InFlightCompleted EndOK
